@@ -8,7 +8,7 @@
                                         countPostingsForAccountInTransactions, forEachTag,
                                         countTagUsage, countTagValueUsage, collectTagValues,
                                         astRangeToProtocol
-    internal/server/server.go           getWorkspaceResolved, workspaceResolvedFor (which resolved
+    internal/server/server.go           resolvedForDocument, workspaceResolvedFor (which resolved
                                         journal Hover uses)
     internal/workspace/workspace.go     Workspace.Contains
     internal/include/types.go           ResolvedJournal.AllTransactions
@@ -170,8 +170,9 @@ def workspaceResolvedFor (v : Option WsView) (path : Bytes) : Option Resolved :=
   | some v => if v.contains path then some v.resolved else none
   | none => none
 
-/-- `Server.getWorkspaceResolved`: `ws` is what `workspaceResolvedFor` returned; when that is nil,
-    whatever publishDiagnostics stored for this URI. -/
+/-- `Server.resolvedForDocument`: `ws` is what `workspaceResolvedFor` returned; when that is nil,
+    whatever publishDiagnostics stored for this URI.  (Completion and inline completion keep
+    `getWorkspaceResolved`: the workspace's journal whenever there is one — modelled in C16.) -/
 def workspaceResolved (ws : Option Resolved) (perUri : Option Resolved) : Option Resolved :=
   match ws with
   | some r => some r
